@@ -128,7 +128,8 @@ def start_tree(net):
 
 
 def tree_sig(t):
-    return [list(map(list, t.get_path())), sorted(t.sliced_inds)]
+    # sliced indices in the tree's own order: it numbers the slices
+    return [list(map(list, t.get_path())), list(t.sliced_inds)]
 
 
 def battery():
@@ -232,6 +233,33 @@ def battery():
     B["get_subtree[random]"] = lambda net, s: jsonable([
         [sorted(x) for x in part] for part in start_tree(net).get_subtree(
             start_tree(net).root, 5, search="random", seed=s)])
+    # compressed-contraction finders and the windowed refinement
+    pcg = importlib.import_module(
+        "cotengra.pathfinders.path_compressed_greedy")
+    hr = importlib.import_module("cotengra.hyperoptimizers.hyper_random")
+    hy = importlib.import_module("cotengra.hyperoptimizers.hyper")
+    core = importlib.import_module("cotengra.core")
+    B["GreedyCompressed"] = lambda net, s: list(map(list, pcg.GreedyCompressed(
+        chi=2, temperature=1.0, seed=s)(*net)))
+    B["GreedySpan"] = lambda net, s: list(map(list, pcg.GreedySpan(
+        temperature=1.0, seed=s)(*net)))
+    B["windowed_reconfigure"] = lambda net, s: list(map(list, (
+        ctg.ContractionTreeCompressed.from_path(
+            *net, path=pcg.GreedyCompressed(chi=2, seed=0)(*net))
+        .windowed_reconfigure(
+            minimize="peak-compressed-2", max_iterations=3,
+            max_window_tries=6, window_size=4, score_temperature=1.0,
+            queue_temperature=1.0, seed=s).get_path())))
+    B["jitter_dict"] = lambda net, s: jsonable(sorted(
+        core.jitter_dict(net[2], 0.5, seed=s).items()))
+
+    def sampler(net, s):
+        methods = ["greedy", "labels", "random-greedy"]
+        rs = hr.RandomSampler(
+            methods, {m: hy.get_hyper_space()[m] for m in methods}, seed=s)
+        return jsonable([rs.ask() for _ in range(6)])
+
+    B["RandomSampler.ask"] = sampler
     # generators of random test networks / data (network argument unused)
     B["rand_equation"] = lambda net, s: jsonable(
         ut.rand_equation(8, 3, n_out=2, n_hyper_in=1, seed=s))
